@@ -108,9 +108,9 @@ func init() {
 
 	otherChecks["C20"] = func(tier string, seed uint64) int {
 		t0 := time.Now()
-		n := 200
+		n := 300
 		if tier == "thorough" {
-			n = 3000
+			n = 6000
 		}
 		results, inconclusive := runCasesSharded("C20", tier, seed, n)
 		rs := runFnSharded("C20", tier, seed, fnShards["C20"], 900)
